@@ -73,8 +73,7 @@ Inductive lop :=
 | LAlloc (n : N)
 | LDealloc (p : ptr) (n : N)
 | LClearCache
-| LClearAll
-| LDestroy.
+| LClearAll.
 
 (* what one call shows to the outside: the allocator calls it made, the pointer it returned, whether it printed *)
 Record out := { o_evs : list ev; o_ret : option N; o_warn : bool }.
@@ -168,7 +167,6 @@ Definition step (st : state) (o : lop) : state * out :=
   | LDealloc p n => dealloc st p n
   | LClearCache => clear_cache st
   | LClearAll => clear_all st
-  | LDestroy => destroy st
   end.
 
 Fixpoint exec (st : state) (ops : list lop) : state * list out :=
